@@ -2,7 +2,7 @@ from common import COMMON_TB, GRAPH_TB, g_wiring, g_lifecycle, g_runners
 
 PROP = dict(
     module="IocProofs.C09",
-    signatures=['c09-', 'd8-', 'c02-hang'],
+    signatures=['c09-', 'd8-', 'c02-hang', 'c02-crash'],
     subs=[dict(sub="graph", n_quick=1500, n_thorough=40000, project=g_lifecycle)],
     thorough_seeds=2,
     level_text='The outcome of App.run is characterised as a theorem (ok iff every stage succeeded; runners only after a successful refresh), every fault site is shown to fail the start in the step that meets it, an exhaustive case analysis lists the only causes of failure, and optional points never fail. Faults are injected one at a time at every place (required point, each callback, loader, scanner, runner) of generated base scenarios and the outcome class, failing stage, event log and runner log are compared with the real Run under recover() and a watchdog.',
